@@ -23,6 +23,8 @@ func init() {
 		Assumptions: []string{"Alloc.index >= 0 marks exactly the cells chosen for lifting in this round"},
 		Run:         runC01,
 		Mutants: []Mutant{
+			{Name: "jump-threading-into-phi-block", File: "go/ir/blockopt.go", Rule: "R1.6", KeyPart: "jumpThreading::no-edit-once-a-phi-was-seen",
+				Old: "\tif c.hasPhi() {\n\t\treturn false // not sound without more effort\n\t}\n", New: "\tif c.hasPhi() && len(b.Preds) != 1 {\n\t\treturn false // not sound without more effort\n\t}\n"},
 			{Name: "zero-skip-flag-from-isDef", File: "go/ir/builder.go", Rule: "R1.5", KeyPart: "assignStmt::",
 				Old: "\t\t\tb.assign(fn, lvals[i], rhss[i], isZero[i], &sb, source)\n", New: "\t\t\tb.assign(fn, lvals[i], rhss[i], isZero[i] || isDef, &sb, source)\n"},
 			{Name: "zero-skip-flag-set-for-every-defined-name", File: "go/ir/builder.go", Rule: "R1.5", KeyPart: "assignStmt::",
@@ -630,5 +632,16 @@ func runC01(c *Ctx) {
 		if n < 8 {
 			c.Undecided("found only %d calls of assign/compLit with a zero-skip flag", n)
 		}
+	})
+	// R1.6: φ-blocks are left alone by the block optimisations (same obligations as C02 R2.7): threading `x && C`'s
+	// empty right-hand block into the φ-block makes the φ lose the edge that carries C.
+	c.Rule("R1.6", func() {
+		var fns []*ssa.Function
+		for _, fn := range c.ModuleFuncs() {
+			if FuncPkgPath(fn) == irPkg && len(fn.Blocks) > 0 {
+				fns = append(fns, fn)
+			}
+		}
+		phiBlockGuardObligations(c, fns)
 	})
 }
